@@ -1,4 +1,5 @@
 import FiberModel.C11.Model
+import FiberModel.C11.Float
 /-
 C11 — the property as an executable predicate over what the harness observed on the real code.
 
@@ -183,14 +184,18 @@ def balancedAux : Bytes → Nat → Bool
 /-- a key written in bracket notation (`a[b][]`) whose brackets do not balance is malformed -/
 def malformedKey (k : Bytes) : Bool := k.contains 91 && !balancedAux k 0
 
-/-- literals of the integer / bool kinds, as Go's strconv reads them (floats: not judged here) -/
+/-- literals of the integer / bool / float kinds, as Go's strconv reads them. A float text is no
+    literal when it is malformed or its value lies beyond the largest finite number of the field's
+    width (`ParseFloat` reports `ErrRange`); texts outside the modelled grammar (underscores,
+    hexadecimal mantissas) are not judged. -/
 def literalOK : Kind → Bytes → Bool
   | .int bits, t => (parseInt bits t).isSome
   | .uint bits, t => (parseUint bits t).isSome
   | .bool, t => (parseBool t).isSome
+  | .float bits, t => parseFloat bits t != some none
   | _, _ => true
 
-/-- A scalar integer / bool field receives, under its alias (one spelling, no bracket or dotted key
+/-- A scalar integer / bool / float field receives, under its alias (one spelling, no bracket or dotted key
     anywhere in the input that could also address it), a last value that is non-empty and no literal
     of its type: the input cannot be bound into the struct. -/
 def unparsableScalar (specs : List FieldSpec) (pairs : List (Bytes × Bytes)) : Bool :=
